@@ -25,7 +25,7 @@ class Contract:
                  props=(), self_type=None, fields=None, is_property=False, on_call=None, let=None,
                  pure=True, kind='code', note='', allow_assert_fail=False, cases=None, hints=None,
                  yields=None, trusted=False, statement=None, varargs=None, kwargs=None, defaults=None,
-                 lemmas=None, timeout=None, negative_controls=None, variant=None, result_from=None, ghost_exit=None, source=None, kinds=None, defines=None, cuts=None, assume_asserts=None, theory=None):
+                 lemmas=None, timeout=None, negative_controls=None, variant=None, result_from=None, ghost_exit=None, source=None, kinds=None, defines=None, cuts=None, assume_asserts=None, theory=None, using=None):
         self.file, self.qual = file, qual
         self.params = dict(params or {})        # name -> type string (ordered)
         self.requires = _clauses(requires)
@@ -33,6 +33,7 @@ class Contract:
         self.ensures = _clauses(ensures, self.witness)
         self.raises = list(raises or [])        # (ExcName, condition expr, 'iff'|'may')
         self.result = result                    # type string of the result (None: infer / None)
+        self.using = dict(using or {})          # obligation label -> labels of the earlier facts (requires, hints, lemmas, invariants) to try first
         self.theory = tuple(theory or ())       # optional theory facts this proof asks for (kept out of all other proofs: fewer hypotheses)
         self.ghost = dict(ghost or {})          # name -> init expr
         self.on_yield = on_yield                # {'vars': [...], 'requires': [...], 'updates': {...}}
